@@ -72,7 +72,8 @@ def fill_stacks(rnd, tier):
     # piece = a valid value of the second piece, threshold of the second)
     for t, d, lo, f1, hi in (('T1', 't', 102, 108, 110), ('T1', 'x', 101, 104, 110),
                              ('T4', 't', 401, 405, 406), ('T7', 't', 703, 725, 730)):
-        for fills in ((f1, -999), ('nan', 'nan'), (-999, -999)):
+        for fills in ((f1, -999), ('nan', 'nan'), (-999, -999), (0, 0),
+                      (0, -999)):
             steps = [{'act': 'slice', 'src': 1, 'others': [], 'args': {
                 'sels': [{'d': d, 's': sl(None, 1)}], 'newdim': 'POINTS'}},
                 {'act': 'slice', 'src': 1, 'others': [], 'args': {
